@@ -222,20 +222,28 @@ prop("C07", "blocking IO delivers the sent sequence under every chunking",
      io_b("recv", "recv step: delivers the first message of the stream, consumes exactly it (or nothing when the guard is retained), keeps the rest in order; Closed only at end of stream")
      + io_b("send", "send step: exactly size() bytes of the image reach the sink in order; buffer released")
      + [H("io_blk::ctors::%s" % sh, 200, 6, "max_msg_len 0..12; message type %s" % sh, "io(pipe, max_msg_len): capacity 2*max(max_msg_len, MIN_SIZE), buffer aligned to the message type, for Receiver/Sender/AsyncReceiver/AsyncSender") for sh in ("U_S1", "V_U8L32", "V_U8")]
+     + [H("io_buf::%s::read_step" % m, 300, 6, "buffer capacity %d (alignment %d), arbitrary window and contents, <= 4 pipe bytes, any chunk, read may fail" % (c, a),
+          "ReadBuffer::read from any buffer state: appends in order, advances by what was read, compacts without reordering, OutOfMemory iff full") for m, c, a in (("a1", 8, 1), ("a4", 12, 4))]
      + [H("io_blk::emplaced::send_emplaced", 900, 10, "FlatVec<u8,u8> of 0..2 items or the default, 5-byte buffer with arbitrary stale contents, every write chunking", "alloc -> new_in_place / default_in_place -> send delivers exactly the emplaced message")],
      IO_ASSUME)
 
 prop("C08", "async IO delivers the same sequence under every chunking and poll schedule",
      "The real recv()/send() futures are polled by hand over pipes that answer Pending or Ready(k) symbolically; same post-conditions as C07 plus: the future is Pending exactly when a pipe call of that poll was Pending (no spurious Pending, completes as soon as the pipe made progress), the sink always holds a prefix of the image (no byte twice or skipped across Pending), and a send completes only after poll_flush returned Ready with all bytes handed over.",
      OUT_IO + ["more than 3 Pending results per step"],
-     io_a("recv", "async recv step under every Pending placement") + io_a("send", "async send step: prefix-only sink, flush before completion, no spurious Pending"),
+     io_a("recv", "async recv step under every Pending placement") + io_a("send", "async send step: prefix-only sink, flush before completion, no spurious Pending")
+     + [H("io_buf::%s::poll_read_step" % m, 300, 6, "buffer capacity %d (alignment %d), arbitrary window and contents, <= 4 pipe bytes, any chunk, Pending or failure possible" % (c, a),
+          "AsyncReadBuffer::poll_read from any buffer state: Pending consumes nothing, Ready(n) advances by exactly n, order preserved") for m, c, a in (("a1", 8, 1), ("a4", 12, 4))],
      IO_ASSUME)
 
 prop("C09", "IO faults surface as errors",
      "The step harnesses with faults enabled: each read may fail with one of four io::ErrorKinds, each write may fail or accept 0 bytes. Asserted: no pipe call follows a failed one within a send/recv (bounded calls, no retry loop), the sink holds a proper prefix of the image, poisoned <=> a partial message is in the stream, a failed read leaves buffered ++ unread == stream (nothing lost or duplicated, so a retried recv is again an instance of the step).",
      OUT_IO + ["io::ErrorKind values other than Other, Interrupted, WouldBlock, BrokenPipe"],
      io_b("recv_faults", "recv step with failing reads") + io_b("send_faults", "send step with failing / zero-length writes")
-     + io_a("recv_faults", "async recv step with failing reads", quick=["V_U8_q"]) + io_a("send_faults", "async send step with failing / zero-length writes", quick=["V_U8_q"]),
+     + io_a("recv_faults", "async recv step with failing reads", quick=["V_U8_q"]) + io_a("send_faults", "async send step with failing / zero-length writes", quick=["V_U8_q"])
+     + [H("io_buf::%s::read_step" % m, 300, 6, "buffer capacity %d (alignment %d), arbitrary window and contents, <= 4 pipe bytes, any chunk, read may fail" % (c, a),
+          "ReadBuffer::read from any buffer state: appends in order, advances by what was read, compacts without reordering, OutOfMemory iff full") for m, c, a in (("a1", 8, 1), ("a4", 12, 4))]
+     + [H("io_buf::%s::poll_read_step" % m, 300, 6, "buffer capacity %d (alignment %d), arbitrary window and contents, <= 4 pipe bytes, any chunk, Pending or failure possible" % (c, a),
+          "AsyncReadBuffer::poll_read from any buffer state: Pending consumes nothing, Ready(n) advances by exactly n, order preserved") for m, c, a in (("a1", 8, 1), ("a4", 12, 4))],
      IO_ASSUME)
 
 prop("C10", "receiver fed arbitrary bytes",
